@@ -280,7 +280,11 @@ fn text_cases(g: &mut G, n: usize) {
 		g.push("csv", "seed", s.as_bytes().to_vec(), "");
 		g.push("buildcsv", "seed", s.as_bytes().to_vec(), "");
 	}
+	for b in [&[0xffu8][..], &[b'a', b'[', 0xc3], b"from_container filename=\"\xe2\x82\"", b""] {
+		g.push("vplfile", "non-utf8", b.to_vec(), "1/0/0");
+	}
 	for s in VPL_SEEDS {
+		g.push("vplfile", "valid", s.as_bytes().to_vec(), "1/0/0,2/1/1");
 		g.push("vpl", "valid", s.as_bytes().to_vec(), "");
 		g.push("build", "valid", s.as_bytes().to_vec(), "");
 	}
@@ -309,6 +313,9 @@ fn text_cases(g: &mut G, n: usize) {
 		// the VPL entry points take text: keep the mutant valid UTF-8
 		let m = String::from_utf8_lossy(&m).into_owned().into_bytes();
 		g.push("vpl", cl, m.clone(), "");
+		if i % 5 == 0 {
+			g.push("vplfile", cl, m.clone(), "1/0/0");
+		}
 		if i % 2 == 0 {
 			g.push("build", cl, m, "");
 		}
@@ -1055,16 +1062,16 @@ pub fn generate(args: &Args) -> Vec<Case> {
 	let thorough = args.thorough();
 	json_utf8_sites(&mut g);
 	nesting(&mut g, thorough);
-	tilejson_cases(&mut g, args.n(300, 3000));
-	text_cases(&mut g, args.n(1500, 20000));
-	mvt_cases(&mut g, args.n(400, 5000));
-	dir_cases(&mut g, args.n(300, 4000));
-	fixed_codec_cases(&mut g, args.n(200, 3000));
-	vt_cases(&mut g, args.n(120, 1500));
-	pm_cases(&mut g, args.n(120, 1500), thorough);
+	tilejson_cases(&mut g, args.n(600, 10000));
+	text_cases(&mut g, args.n(3000, 80000));
+	mvt_cases(&mut g, args.n(800, 20000));
+	dir_cases(&mut g, args.n(600, 16000));
+	fixed_codec_cases(&mut g, args.n(400, 10000));
+	vt_cases(&mut g, args.n(250, 5000));
+	pm_cases(&mut g, args.n(250, 5000), thorough);
 	let scratch = if args.out.is_absolute() { args.out.join("c19gen") } else { std::env::current_dir().unwrap().join(&args.out).join("c19gen") };
-	mb_cases(&mut g, &scratch, args.n(60, 600));
+	mb_cases(&mut g, &scratch, args.n(100, 1500));
 	let _ = std::fs::remove_dir_all(&scratch);
-	tar_cases(&mut g, args.n(150, 2000));
+	tar_cases(&mut g, args.n(300, 6000));
 	g.cases
 }
